@@ -216,7 +216,9 @@ pub const READ_REPAIR_SOURCE_ID: usize = 1;
 
 ACTOR_REWRITES = [
     # the partial-failure paths build a std HashSet<&Key> (SipHash + OS RNG + hashbrown): container model instead
-    (r"^use std::collections::HashSet;$", "use datacake_crdt::verif_api::HashSet;", 1),
+    # (any `use std::collections::...;` line of the file is redirected, so that a refactor to another std container does not
+    # make the regeneration fail)
+    (r"^use std::collections::(.+);$", r"use datacake_crdt::verif_api::coll::\1;", 1),
     # the bulk handlers collect (id, stamp) pairs into a std Vec under a symbolic filter and sort it (driftsort on a
     # symbolic-length heap Vec does not finish in an hour): fixed-capacity Vec model with a stable constant-bound sort
     (r"let mut valid_entries = Vec::with_capacity\(msg\.docs\.len\(\)\);",
